@@ -102,6 +102,14 @@ pub fn generate(seed: u64, idx: u64) -> Scenario {
                 let t = gen::document(&mut rng, k);
                 s.open(&uri, &t);
             }
+            (None, 5 | 6) => {
+                // notifications for a document the server does not know: ignored, never fatal
+                if rng.chance(600) {
+                    s.change(&uri, vec![Edit { range: Some([0, 0, 0, rng.below(4) as u32]), text: "x".into() }]);
+                } else {
+                    s.close(&uri);
+                }
+            }
             (None, _) => {
                 let m = *rng.pick(&METHODS);
                 s.request(m, &uri, rng.below(5) as u32, rng.below(20) as u32);
